@@ -515,8 +515,13 @@ ModelBuild(st, v) == LET nc == Len(st.covs) IN
 (* Neighbourhoods (src/Neigh)                                                *)
 
 W_NeighUnique(o) == <<RecI(TRUE, o.ndim)>>
+\* ANeigh::_deserialize: setNDim(ndim) builds a space of the dimension read (any value is accepted by the real reader)
 R_ANeigh(L, md, s0) == LET s1 == RdI(L, md, s0, "ndim") IN
-                       IF s1.ok /\ md = "ideal" /\ (s1.o.ndim < 1 \/ s1.o.ndim > 3) THEN Fail(s1, "badCount") ELSE s1
+                       IF ~s1.ok THEN s1
+                       ELSE IF md = "ideal" THEN (IF s1.o.ndim < 1 \/ s1.o.ndim > 3 THEN Fail(s1, "badCount") ELSE s1)
+                       ELSE IF s1.o.ndim < 1 THEN Ev(s1, "badDims")
+                       ELSE IF s1.o.ndim > 100000 THEN Fail(s1, "allocHuge")
+                       ELSE s1
 R_NeighUnique(L, md, s0) == LET s1 == R_ANeigh(L, md, s0) IN
   Res(s1, [ndim |-> s1.o.ndim])
 
